@@ -15,7 +15,8 @@ structure ReqDecl where
 /-- tokeniser state of one connection -/
 structure Tok where
   headLeft : Nat := 0
-  started : Bool := false
+  loaded : Bool := false            -- the declaration of the request being received is loaded
+  next : List ReqDecl := []         -- declarations of the requests that follow on this connection (keep-alive)
   body : Body := .none
   clLeft : Nat := 0
   -- chunked: 0 = size line, 1 = data (dataLeft), 2 = CRLF after data, 3 = trailer end, 4 = done
@@ -34,8 +35,9 @@ structure DSt where
   mode : Mode := .select
   thr : Bool := false
   ids : List Nat := []
-  reqs : List (Nat × ReqDecl) := []
-  plans : List (Nat × Plan) := []
+  reqs : List (Nat × ReqDecl) := []     -- key = 16 * connection + request index
+  plans : List (Nat × Plan) := []       -- same key
+  rix : List (Nat × Nat) := []          -- request index per connection (number of `completed` so far)
   resps : List (Nat × RespDecl) := []
   toks : List (Nat × Tok) := []
   kpend : List Nat := []                -- epoll: connections with a queued edge event
@@ -116,22 +118,42 @@ partial def tokChunked (t : Tok) (out : List Sym) : Tok × List Sym :=
     | _ => ({ t with bad := true }, out)
   | _ => if t.carry.isEmpty then (t, out) else ({ t with bad := true }, out)
 
-def tokenize (t : Tok) (bytes : List UInt8) : Tok × List Sym :=
+/-- the bytes of the request being received: (state, symbols, bytes left over for the next request) -/
+def tokOne (t : Tok) (bytes : List UInt8) : Tok × List Sym × List UInt8 :=
   -- head
   let hl := min t.headLeft bytes.length
   let rest := bytes.drop hl
   let t1 := { t with headLeft := t.headLeft - hl }
   let headDone := t.headLeft > 0 && t1.headLeft = 0
   let out0 : List Sym := if headDone then [.head] else []
-  if t1.headLeft > 0 then (t1, out0) else
+  if t1.headLeft > 0 then (t1, out0, []) else
   match t1.body with
-  | .none => if rest.isEmpty then (t1, out0) else ({ t1 with bad := true }, out0)
+  | .none => (t1, out0, rest)
   | .cl _ =>
     let n := min t1.clLeft rest.length
-    let t2 := { t1 with clLeft := t1.clLeft - n }
-    if rest.length > n then ({ t2 with bad := true }, out0 ++ (rest.take n).map Sym.b)
-    else (t2, out0 ++ (rest.take n).map Sym.b)
-  | .chunked => tokChunked { t1 with carry := t1.carry ++ rest } out0
+    ({ t1 with clLeft := t1.clLeft - n }, out0 ++ (rest.take n).map Sym.b, rest.drop n)
+  | .chunked =>
+    let r := tokChunked { t1 with carry := t1.carry ++ rest } out0
+    if r.1.phase = 4 then ({ r.1 with carry := [] }, r.2, r.1.carry) else (r.1, r.2, [])
+
+def reqDone (t : Tok) : Bool :=
+  t.headLeft == 0 && (match t.body with | .none => true | .cl _ => t.clLeft == 0 | .chunked => t.phase == 4)
+
+/-- a keep-alive byte stream: request after request, as declared -/
+partial def tokenize (t : Tok) (bytes : List UInt8) (out : List Sym := []) : Tok × List Sym :=
+  if t.bad then (t, out) else
+  if !t.loaded then
+    if bytes.isEmpty then (t, out) else
+    match t.next with
+    | [] => ({ t with bad := true }, out)
+    | r :: rs =>
+      tokenize { headLeft := r.headLen, body := r.body, clLeft := (match r.body with | .cl n => n | _ => 0),
+                 next := rs, loaded := true } bytes out
+  else
+    let r := tokOne t bytes
+    if r.1.bad then (r.1, out ++ r.2.1)
+    else if reqDone r.1 then tokenize { r.1 with loaded := false } r.2.2 (out ++ r.2.1)
+    else (r.1, out ++ r.2.1)
 
 def hexStr (bs : List UInt8) : String := hexOfBytes bs
 
@@ -151,17 +173,18 @@ def showPhase : Phase → String
 
 def showEv (st : DSt) (e : Ev) : List String :=
   let c := e.1
-  let known : Bool := ((lookupD c st.plans).map fun p => p.rkind == .cbKnown).getD false
-  let size : Nat := ((lookupD c st.plans).map fun p => p.size).getD 0
+  let r : Nat := (lookupD c st.rix).getD 0
+  let known : Bool := ((lookupD (16 * c + r) st.plans).map fun p => p.rkind == .cbKnown).getD false
+  let size : Nat := ((lookupD (16 * c + r) st.plans).map fun p => p.size).getD 0
   match e.2 with
   | .connStart => [s!"conn-start c={c}"]
   | .handler .upload off took =>
-    [s!"handler c={c} r=0 phase=upload method=- url=- up={hexStr off}", s!"took c={c} r=0 n={took} of={off.length}"]
-  | .handler ph _ _ => [s!"handler c={c} r=0 phase={showPhase ph} method=- url=- up=-"]
-  | .queued => [s!"queued c={c} r=0 rid=0 code=200 -> 1"]
+    [s!"handler c={c} r={r} phase=upload method=- url=- up={hexStr off}", s!"took c={c} r={r} n={took} of={off.length}"]
+  | .handler ph _ _ => [s!"handler c={c} r={r} phase={showPhase ph} method=- url=- up=-"]
+  | .queued => [s!"queued c={c} r={r} rid=0 code=200 -> 1"]
   | .reader j pos ret =>
-    [s!"reader c={c} r=0 j={j} pos={pos} -> " ++ (match ret with | none => "eos" | some n => toString n)]
-  | .suspend eff => [s!"suspend c={c} r=0 at=x act=x eff={if eff then 1 else 0}"]
+    [s!"reader c={c} r={r} j={j} pos={pos} -> " ++ (match ret with | none => "eos" | some n => toString n)]
+  | .suspend eff => [s!"suspend c={c} r={r} at=x act=x eff={if eff then 1 else 0}"]
   | .resumeReq => [s!"resume c={c} model"]
   | .resumed => [s!"resumed c={c}"]
   | .recv n => [s!"io c={c} recv n=" ++ (match n with | none => "-1" | some k => toString k)]
@@ -172,8 +195,18 @@ def showEv (st : DSt) (e : Ev) : List String :=
     let w := if known then bs else natHex bs.length ++ [13, 10] ++ bs ++ [13, 10]
     [s!"io c={c} send n={w.length}", s!"wire c={c} {hexStr w}"]
   | .sendEnd => [s!"io c={c} send n=5", s!"wire c={c} {hexStr (str "0\r\n\r\n")}"]
-  | .completed => [s!"completed c={c} r=0 code=0"]
+  | .completed => [s!"completed c={c} r={r} code=0"]
   | .fault w => [s!"fault c={c} {w}"]
+
+/-- print the events in order; a `completed` moves the connection to its next request -/
+def showEvs (st : DSt) : List Ev → List String → DSt × List String
+  | [], acc => (st, acc)
+  | e :: rest, acc =>
+    let ls := showEv st e
+    let st1 := match e.2 with
+      | .completed => { st with rix := setD e.1 ((lookupD e.1 st.rix).getD 0 + 1) st.rix }
+      | _ => st
+    showEvs st1 rest (acc ++ ls)
 
 /-- kernel bookkeeping after a model step: EPOLL_CTL_ADD queues an event, EPOLL_CTL_DEL drops it -/
 def kernelAfter (before after : Daemon) (ids : List Nat) (kp : List Nat) : List Nat :=
@@ -187,11 +220,11 @@ def kernelAfter (before after : Daemon) (ids : List Nat) (kp : List Nat) : List 
 def doStep (st : DSt) (op : Op) : DSt × List String :=
   let r := step srcGuards st.d op
   let st1 := { st with d := r.1, kpend := kernelAfter st.d r.1 st.ids st.kpend }
-  (st1, (r.2.map (showEv st1)).flatten)
+  showEvs st1 r.2 []
 
-def buildPlan (st : DSt) (c : Nat) : Plan :=
-  let p := (lookupD c st.plans).getD {}
-  let rq := (lookupD c st.reqs).getD {}
+def buildPlan (st : DSt) (key : Nat) : Plan :=
+  let p := (lookupD key st.plans).getD {}
+  let rq := (lookupD key st.reqs).getD {}
   let rs := (lookupD p.rid st.resps).getD {}
   { p with body := rq.body, rkind := rs.kind, size := rs.size, cbmax := rs.cbmax }
 
@@ -211,8 +244,13 @@ def stepLine (st : DSt) (ws : List String) : DSt × List String :=
     | none => (st, ["ok"])
   | ["start"] =>
     -- every `beh` / `req` / `resp` line of the case precedes `start`
-    let plans := fun c => buildPlan st c
-    ({ st with started := true, d := Daemon.init st.mode plans, plans := st.plans.map (fun p => (p.1, buildPlan st p.1)) }, ["started"])
+    let plans := fun c => buildPlan st (16 * c)
+    -- the requests 1, 2, … of a connection are the declared ones (`req c r`), in order
+    let later := fun c => ((List.range 15).map (· + 1)).filterMap fun r =>
+      if (lookupD (16 * c + r) st.reqs).isSome then some (buildPlan st (16 * c + r)) else none
+    let keys := (st.reqs.map (·.1)) ++ (st.plans.map (·.1))
+    ({ st with started := true, d := Daemon.init st.mode plans later,
+               plans := keys.eraseDups.map (fun k => (k, buildPlan st k)) }, ["started"])
   | "resp" :: rid :: rest =>
     match rid.toNat?, kvOf "kind" rest, (kvOf "size" rest).bind String.toNat?, (kvOf "cbmax" rest).bind String.toNat? with
     | some r, some k, some sz, some cm =>
@@ -220,9 +258,10 @@ def stepLine (st : DSt) (ws : List String) : DSt × List String :=
       else if k == "cb-known" then ({ st with resps := setD r { kind := .cbKnown, size := sz, cbmax := cm } st.resps }, ["ok"])
       else (st, ["bad-op"])
     | _, _, _, _ => (st, ["bad-op"])
-  | "req" :: c :: "0" :: rest =>
-    match c.toNat?, (kvOf "head" rest).bind String.toNat?, kvOf "body" rest with
-    | some ci, some hl, some b =>
+  | "req" :: c :: rr :: rest =>
+    match c.toNat?, rr.toNat?, (kvOf "head" rest).bind String.toNat?, kvOf "body" rest with
+    | some ci, some ri, some hl, some b =>
+      if ri ≥ 16 then (st, ["bad-op"]) else
       let body : Option Body :=
         if b == "none" then some .none else if b == "ch" then some .chunked
         else match b.splitOn ":" with
@@ -230,13 +269,14 @@ def stepLine (st : DSt) (ws : List String) : DSt × List String :=
           | _ => none
       match body with
       | some bd =>
-        let cl := match bd with | .cl n => n | _ => 0
-        ({ st with reqs := setD ci { headLen := hl, body := bd } st.reqs,
-                   toks := setD ci { headLeft := hl, body := bd, clLeft := cl } st.toks }, ["ok"])
+        -- requests are declared in order r = 0, 1, …
+        let t := (lookupD ci st.toks).getD {}
+        ({ st with reqs := setD (16 * ci + ri) { headLen := hl, body := bd } st.reqs,
+                   toks := setD ci { t with next := t.next ++ [{ headLen := hl, body := bd }] } st.toks }, ["ok"])
       | none => (st, ["bad-op"])
-    | _, _, _ => (st, ["bad-op"])
-  | "beh" :: c :: "0" :: rest =>
-    match c.toNat?, (kvOf "fs" rest).bind parseActs, (kvOf "ls" rest).bind parseActs,
+    | _, _, _, _ => (st, ["bad-op"])
+  | "beh" :: c :: rr :: rest =>
+    match (c.toNat?.bind fun ci => rr.toNat?.bind fun ri => if ri < 16 then some (16 * ci + ri) else none), (kvOf "fs" rest).bind parseActs, (kvOf "ls" rest).bind parseActs,
           (kvOf "us" rest).bind parseIdxActs, (kvOf "rs" rest).bind parseIdxActs,
           (kvOf "u" rest).bind parseTakes, (kvOf "rd" rest).bind String.toNat?, kvOf "l" rest with
     | some ci, some fs, some ls, some us, some rs, some tk, some rd, some l =>
@@ -271,11 +311,11 @@ def stepLine (st : DSt) (ws : List String) : DSt × List String :=
     | .epoll =>
       let evs := st.kpend.map fun c => (c, !(st.d.conn c).inbox.isEmpty, true)
       let r := doStep { st with kpend := [] } (.eround st.ids evs)
-      (r.1, r.2 ++ ["round-end"])
+      (r.1, r.2 ++ [if r.1.d.hintZero then "hint 0" else "hint none", "round-end"])
     | _ =>
       let d := st.d
       let r := doStep st (.round st.ids (fun c => !(d.conn c).inbox.isEmpty) (fun _ => true))
-      (r.1, r.2 ++ ["round-end"])
+      (r.1, r.2 ++ [if r.1.d.hintZero then "hint 0" else "hint none", "round-end"])
   | ["resume", c] =>
     match c.toNat? with
     | some ci => if st.ids.contains ci then doStep st (.resume ci) else (st, ["bad-op"])
